@@ -5,10 +5,12 @@ package main
 import (
 	"bufio"
 	"fmt"
+	"runtime"
 	"sort"
 	"strconv"
 	"strings"
 	"sync"
+	"sync/atomic"
 	"time"
 
 	"github.com/postalsys/muti-metroo/internal/crypto"
@@ -287,6 +289,40 @@ func c29Run(line string) string {
 		p, _ := strconv.Atoi(f[1])
 		w.f.OnPeerConnected(c29ID(w, p))
 		return "fwd=" + c29Fwd(w)
+	case "stress":
+		// one fresh valid command delivered from n goroutines at once: the seen-cache test-and-set is a
+		// single critical section, so exactly one delivery finds it new
+		n, _ := strconv.Atoi(f[1])
+		o, ts, sig := c29Build(w, 5, 999999, fmt.Sprintf("r%d", w.voff), "valid")
+		var wg sync.WaitGroup
+		var mu sync.Mutex
+		acc := 0
+		var ready int32
+		for i := 0; i < n; i++ {
+			wg.Add(1)
+			go func(i int) {
+				defer wg.Done()
+				// spin barrier: all goroutines leave it within nanoseconds of each other
+				atomic.AddInt32(&ready, 1)
+				for atomic.LoadInt32(&ready) < int32(n) {
+					runtime.Gosched()
+				}
+				var ok bool
+				if i%2 == 0 {
+					ok = w.f.HandleSleepCommand(c29ID(w, 1+i%3), &protocol.SleepCommand{OriginAgent: o, CommandID: 999999, Timestamp: ts, Signature: sig})
+				} else {
+					ok = w.f.HandleWakeCommand(c29ID(w, 1+i%3), &protocol.WakeCommand{OriginAgent: o, CommandID: 999999, Timestamp: ts, Signature: sig})
+				}
+				if ok {
+					mu.Lock()
+					acc++
+					mu.Unlock()
+				}
+			}(i)
+		}
+		wg.Wait()
+		c29Fwd(w)
+		return fmt.Sprintf("stress acc=%d", acc)
 	}
 	return "bad-op"
 }
@@ -331,6 +367,10 @@ func c29Gen(w *bufio.Writer, seed int64, tier string) {
 				c := cached[r.intn(len(cached))]
 				fmt.Fprintf(w, "d %s %d %s %s %s %s -\n", c.k, 1+r.intn(3), c.origin, c.id, c.ts, c.sig)
 			}
+			continue
+		}
+		if r.chance(6) { // concurrency stress (last op of its case)
+			fmt.Fprintf(w, "reset %d %d %d 10000\nstress %d\n", c29B2i(signing), W, ttlMs, 8+r.intn(24))
 			continue
 		}
 		maxSize := r.pick(0, 10000, 10000, 10000)
